@@ -6,6 +6,7 @@
 #include <errno.h>
 
 #include <stdio.h>
+#include <stdlib.h>
 #include <signal.h>
 
 #include <sys/uio.h>
@@ -62,17 +63,21 @@ extern int mpt_dispatch_hash(MPT_STRUCT(dispatch) *disp, MPT_STRUCT(event) *ev)
 	}
 	/* need aligned data */
 	else {
-		char buf[128];
-		if ((size_t) len > sizeof(buf)) {
+		char buf[128], *txt = buf;
+		/* same result as for continous data: long commands need temporary memory */
+		if ((size_t) len > sizeof(buf) && !(txt = malloc(len))) {
 			return MPT_event_fail(ev, MPT_ERROR(MissingBuffer), MPT_tr("large unaligned text command"));
 		}
-		if (mpt_message_read(&msg, len, buf) != (size_t) len) {
+		if (mpt_message_read(&msg, len, txt) != (size_t) len) {
 			MPT_ABORT("conflicting message length");
 		}
-		if (!mt.arg && !buf[len-1]) {
+		if (!mt.arg && !txt[len-1]) {
 			--len;
 		}
-		ev->id = mpt_hash(buf, len);
+		ev->id = mpt_hash(txt, len);
+		if (txt != buf) {
+			free(txt);
+		}
 	}
 	/* execute matching command */
 	if ((cmd = mpt_command_get(&disp->_d, ev->id))) {
